@@ -19,6 +19,7 @@ import (
 
 // ConcCfg configures the concurrent-readers scenario (C04).
 type ConcCfg struct {
+	Shared    bool           `json:"shared,omitempty"` // writers share ids: the history is checked for linearizability (linear.go)
 	Index     model.IndexCfg `json:"index"`
 	Sched     sched.Config   `json:"sched"`
 	NDocs     int            `json:"ndocs"`
@@ -42,6 +43,7 @@ type HeldOp struct {
 
 // ConcWL is the workload of the conc scenario.
 type ConcWL struct {
+	Clients     [][]LinOp       `json:"clients,omitempty"` // shared-id mode
 	Writers     [][]model.Batch `json:"writers"`
 	Observers   [][]ObsOp       `json:"observers"`
 	Held        []HeldOp        `json:"held,omitempty"`
@@ -64,8 +66,12 @@ func genConc(c *core.Ctx) (ConcCfg, ConcWL) {
 		cfg.Index.Unsafe = g.Intn(2) == 0
 	}
 	cfg.Sched = genSchedCfg(g, cfg.Index.Engine == "scorch")
+	cfg.Shared = g.Intn(10) < 3
 	wl := ConcWL{}
 	nw := 1 + g.Intn(3)
+	if cfg.Shared {
+		return cfg, genLinearWL(g, cfg)
+	}
 	for w := 0; w < nw; w++ {
 		n := 3 + g.Intn(6)
 		wl.Writers = append(wl.Writers, genWriterBatches(g, w, cfg.NDocs, n))
@@ -169,6 +175,10 @@ func concScenario(c *core.Ctx) {
 	}
 	cfg = core.LoadOrGen(&c.Spec.Config, func() ConcCfg { return cfg })
 	wl = core.LoadOrGen(&c.Spec.Workload, func() ConcWL { return wl })
+	if cfg.Shared {
+		linearScenario(c, cfg, wl)
+		return
+	}
 	env := NewEnv(c, cfg.Sched, cfg.AnalysisQ)
 	s := env.S
 	defer env.Finish()
